@@ -66,6 +66,8 @@ def gen_spec(rng: np.random.Generator, tier: str, hermitian: bool = True, **forc
         max_total=0,
         degenerate=bool(rng.integers(0, 2)),
         case=[int(x) for x in rng.integers(0, 2**31, size=3)],
+        near_deg=bool(rng.random() < 0.3),
+        offset=int(rng.choice([0, 0, 0, 8192])),
     )
     spec.update(force)
     return normalise(spec, thorough)
@@ -86,6 +88,9 @@ def normalise(spec: dict, thorough: bool = False) -> dict:
             spec["design"] = "indices"
         if spec["complex"] and (N > 4 or spec["design"] == "vectors"):
             spec["complex"] = False  # sympy does not expand products of Gaussian rationals: exponential swell
+    if spec.get("offset") and spec["design"] == "vectors" and spec["vtype"] != "sympy":
+        # rotating a float H_0 of size ~1e4 leaves rounding noise above the library's absolute atol=1e-12
+        spec["design"] = "indices"
     if not spec.get("max_total"):
         spec["max_total"] = int(max_total)
     spec["max_total"] = int(min(spec["max_total"], max_total))
@@ -94,7 +99,7 @@ def normalise(spec: dict, thorough: bool = False) -> dict:
 
 def signature(spec: dict) -> list:
     return [
-        spec["hermitian"], spec["nblocks"], sorted(spec["sizes"]), spec["n_par"], spec["vtype"], spec["complex"],
+        spec["hermitian"], spec["nblocks"], sorted(spec["sizes"]), spec["n_par"], spec["vtype"], spec["complex"], bool(spec.get("offset")), bool(spec.get("near_deg")),
         spec["sel"], spec["design"], spec["container"], spec["extra_orders"], spec["degenerate"], spec["max_total"],
     ]
 
@@ -155,7 +160,7 @@ def build(spec: dict) -> Problem:
     # --- energies: half-integer grid; distinct levels across blocks, degeneracies inside blocks
     n_levels = N + 4
     pool = list(rng.permutation(np.arange(-n_levels, n_levels + 1)))
-    E_num = []  # numerators over 2 (real part), imaginary numerators over 2
+    E_num = []  # numerators over 16 (real part); imaginary numerators over 2
     for b, s in enumerate(sizes):
         levels = []
         for k in range(s):
@@ -163,11 +168,19 @@ def build(spec: dict) -> Problem:
                 levels.append(levels[0])
             elif levels and spec["degenerate"] and rng.random() < 0.45:
                 levels.append(levels[int(rng.integers(0, len(levels)))])
+            elif levels and spec.get("near_deg") and rng.random() < 0.4:
+                # a level split by only 1/16 from another level of the same block (distinct: to be
+                # eliminated when the block is fully diagonalised / masked)
+                levels.append(levels[int(rng.integers(0, len(levels)))] + 1)
             else:
-                levels.append(int(pool.pop()))
+                levels.append(8 * int(pool.pop()))
         E_num += levels
     if not any(E_num):
-        E_num = [1] * N  # the library rejects H_0 = 0 by design: stay inside the domain
+        E_num = [16] * N  # the library rejects H_0 = 0 by design: stay inside the domain
+    if spec.get("offset"):
+        # large common offset: relative gaps become small (but stay above the library's relative
+        # threshold 1e-5 for coupled blocks), absolute gaps unchanged
+        E_num = [e + 16 * int(spec["offset"]) for e in E_num]
     E_im = [0] * N
     herm_values = spec.get("herm_values", hermitian)
     if not herm_values and cplx:
@@ -188,7 +201,7 @@ def build(spec: dict) -> Problem:
         nums[o] = _rand_matrix(rng, N, cplx, herm_values)
     z = (0,) * n_par
 
-    terms_f = {z: np.diag(np.array(E_num, float) / 2 + 1j * np.array(E_im, float) / 2).astype(complex)}
+    terms_f = {z: np.diag(np.array(E_num, float) / 16 + 1j * np.array(E_im, float) / 2).astype(complex)}
     for o, (re, im) in nums.items():
         terms_f[o] = (re + 1j * im).astype(complex) / DEN
     terms_x = None
@@ -197,7 +210,7 @@ def build(spec: dict) -> Problem:
         terms_x = {}
         H0x = gr_zeros((N, N))
         for i in range(N):
-            H0x[i, i] = GR(Fraction(E_num[i], 2), Fraction(E_im[i], 2))
+            H0x[i, i] = GR(Fraction(E_num[i], 16), Fraction(E_im[i], 2))
         terms_x[z] = H0x
         for o, (re, im) in nums.items():
             M = gr_zeros((N, N))
@@ -246,6 +259,55 @@ def build(spec: dict) -> Problem:
     )
     _encode(prob, rng_for(*spec["case"], 7))
     return prob
+
+
+def compute_keep(sizes, Ec, fd, masks):
+    """keep matrix from the user-level selection (fully_diagonalize tuple / mask dict)."""
+    nb = len(sizes)
+    block_of = np.repeat(np.arange(nb), sizes)
+    off = np.concatenate([[0], np.cumsum(sizes)])
+    Ec = np.asarray(Ec)
+    same_E = Ec[:, None] == Ec[None, :]
+    keep = block_of[:, None] == block_of[None, :]
+    if nb == 1 and not fd and not masks:
+        fd = (0,)
+    for b in fd:
+        sl = slice(off[b], off[b + 1])
+        keep[sl, sl] = same_E[sl, sl]
+    for b, m in masks.items():
+        sl = slice(off[b], off[b + 1])
+        keep[sl, sl] = ~m
+    return keep, block_of
+
+
+def derive(base: Problem, *, terms_f: dict, terms_x: dict | None = None, sizes=None, fd=None, masks=None, enc_salt=7, **spec_over) -> Problem:
+    """A new problem from explicit canonical terms (zeroth order included, diagonal), block sizes
+    and selection; keep-set and energies are recomputed here.  Used by the covariance checks."""
+    spec = dict(base.spec)
+    spec.update(spec_over)
+    sizes = list(base.sizes if sizes is None else sizes)
+    fd = base.fd if fd is None else tuple(fd)
+    masks = dict(base.masks if masks is None else masks)
+    n_par = base.n_par
+    z = (0,) * n_par
+    N = sum(sizes)
+    spec["sizes"], spec["nblocks"] = sizes, len(sizes)
+    if base.exact:
+        E = [terms_x[z][i, i] for i in range(N)]
+        Ec = np.array([complex(e) for e in E])
+    else:
+        Ec = np.diag(terms_f[z]).copy()
+        E = list(Ec)
+    keep, block_of = compute_keep(sizes, Ec, fd, masks)
+    firsts = {tuple(int(x) for x in row) for row in np.eye(n_par, dtype=int)}
+    if set(terms_f) - {z} != firsts:
+        spec["container"] = "dict"
+    q = Problem(
+        spec=spec, hermitian=base.hermitian, sizes=sizes, N=N, n_par=n_par, exact=base.exact, E=E, terms_f=terms_f, terms_x=terms_x,
+        keep=keep, block_of=block_of, masks=masks, fd=fd, orders=list(base.orders),
+    )
+    _encode(q, rng_for(*spec["case"], enc_salt))
+    return q
 
 
 def from_terms(base: Problem, terms_f: dict, terms_x: dict | None, n_par: int, max_total: int | None = None, **spec_over) -> Problem:
